@@ -1,7 +1,8 @@
 /-
 C10 — The mock server's instance store is a faithful keyed map with CIM status codes.
 ONLY property theorems, non-vacuity examples and witnesses live here; helper lemmas are in
-Proofs/Lemmas/Store.lean, StoreEq.lean, StoreClient.lean, StoreLaws.lean, StoreAlias.lean, StoreSubclass.lean.
+Proofs/Lemmas/Store.lean, StoreEq.lean, StoreClient.lean, StoreLaws.lean, StoreAlias.lean, StoreSubclass.lean,
+StoreKeys.lean.
 Models (all mirror the code after the `fix:` commits): Pywbem/Model/Store.lean (the six operations from the request
 to the dict), StoreClient.lean (argument handling of the public methods), StoreEq.lean (pywbem's path equality),
 StoreSubclass.lean (the downward subclass walk), StoreAlias.lean (object identities and copies);
@@ -22,6 +23,7 @@ import Proofs.Lemmas.StoreClient
 import Proofs.Lemmas.StoreLaws
 import Proofs.Lemmas.StoreAlias
 import Proofs.Lemmas.StoreSubclass
+import Proofs.Lemmas.StoreKeys
 
 set_option linter.unusedSimpArgs false
 
@@ -610,6 +612,94 @@ def demoCreateP : Inst :=
                                         val := Val.one (KV.sc (Scalar.str "x".toList)) }] }
 
 example : (match (stepCreate demoRepoA (some "ROOT/B".toList) demoCreateP).2 with | .path _ => true | _ => false) = true := by
+  decide
+
+/-! ### ModifyInstance and the key properties -/
+
+/-- **ModifyInstance never changes a key property, with or without PropertyList.**  After a successful ModifyInstance
+    (any schema admitted by `Tame`, any ModifiedInstance, any PropertyList – naming key properties or not, supplying
+    them or not) the instance GetInstance answers has, under every key property name of the class, a value that is
+    Python-equal (`==` on the CIM values) to the value it had before: the checks of the dispatcher (a supplied key
+    property must equal the stored one; a key property named in PropertyList but not supplied would be reset to its
+    class default and is refused unless that is the stored value) leave `CIMInstance.update` nothing else to write. -/
+theorem C10_modify_keeps_key_values (r r' : Repo) (path : Path) (inst : Inst) (pl : Option (List Name))
+    (ht : Tame r (.modify path inst pl)) (hinv : Inv r) (h : stepModify r path inst pl = (r', .unit)) (o : RetOpts) :
+    ∃ e c oldCls oldProps newProps,
+      findNs r (effNs r path.ns) = some e ∧ findCls e.classes inst.cls = some c ∧
+      normOut (stepGet r path none o).2 = .inst ⟨oldCls, keyIn path (path.ns.getD r.dflt),
+        removeClassOrigin (removeQualifiers oldProps), false⟩ ∧
+      normOut (stepGet r' path none o).2 = .inst ⟨oldCls, keyIn path (path.ns.getD r.dflt),
+        removeClassOrigin (removeQualifiers newProps), false⟩ ∧
+      ∀ n d sp, findDecl c n = some d → d.isKey = true → findProp oldProps n = some sp →
+        ∃ q, findProp newProps n = some q ∧ valNe q.val sp.val = false :=
+  modify_keeps_keys_full ht hinv h o
+
+/-- non-vacuity, and the three ways of touching a key: on the repository holding TST_P.name="x", a modification of
+    `v` under PropertyList ["V"] succeeds; supplying another key value, and naming the key in PropertyList without
+    supplying it (it would be reset to the class default NULL), are refused with INVALID_PARAMETER -/
+def demoStored : Repo := (stepCreate demoRepo none demoCreateP).1
+def demoStoredPath : Path :=
+  { cls := "TST_P".toList, ns := none, host := none, keys := [("Name".toList, KV.sc (Scalar.str "x".toList))] }
+def demoV : PropV := { name := "v".toList, ty := "uint32".toList, isArr := false, val := Val.one (KV.sc (Scalar.int 5)) }
+def demoOtherKey : PropV :=
+  { name := "name".toList, ty := "string".toList, isArr := false, val := Val.one (KV.sc (Scalar.str "y".toList)) }
+
+example :
+    (stepModify demoStored demoStoredPath { cls := "TST_P".toList, props := [demoV] } (some ["V".toList])).2 = .unit ∧
+    (stepModify demoStored demoStoredPath { cls := "TST_P".toList, props := [demoOtherKey] } none).2 = errParam ∧
+    (stepModify demoStored demoStoredPath { cls := "TST_P".toList, props := [demoV] }
+      (some ["v".toList, "NAME".toList])).2 = errParam := by
+  decide
+
+/-! ### the embedded-instance class check -/
+
+/-- **Embedded instances are checked against the EmbeddedInstance class** (`_validate_property`, `is_subclass`; no
+    hypotheses).  A CreateInstance that succeeds and a ModifyInstance that succeeds validated every supplied property:
+    a property holding an embedded instance of class `ecls` is declared with that type and arrayness and either
+    carries `EmbeddedInstance(k)` where `ecls` is a class of the namespace that is `k` or walks up the superclass
+    chain to `k`, or (no EmbeddedInstance qualifier) is declared `EmbeddedObject`.  Conversely a CreateInstance with a
+    property that fails the validation answers INVALID_PARAMETER and changes nothing. -/
+theorem C10_embedded_instance_class_checked (r : Repo) (nsArg : Option Name) (inst : Inst) (path : Path)
+    (pl : Option (List Name)) :
+    (∀ p, (stepCreate r nsArg inst).2 = .path p →
+      ∃ e c, findNs r (effNs r nsArg) = some e ∧ findCls e.classes inst.cls = some c ∧
+        ∀ q ∈ inst.props, ∀ ecls txt, q.val = .emb false ecls txt → EmbChecked e.classes c q ecls) ∧
+    ((stepModify r path inst pl).2 = .unit →
+      ∃ e c, findNs r (effNs r path.ns) = some e ∧ findCls e.classes inst.cls = some c ∧
+        ∀ q ∈ inst.props, ∀ ecls txt, q.val = .emb false ecls txt → EmbChecked e.classes c q ecls) ∧
+    (∀ e c q, findNs r (effNs r nsArg) = some e → findCls e.classes inst.cls = some c → q ∈ inst.props →
+      validProp e.classes c q = false → stepCreate r nsArg inst = (r, errParam)) := by
+  refine ⟨?_, ?_, ?_⟩
+  · intro p h
+    obtain ⟨e, c, he, hc, hall⟩ := stepCreate_ok_valid h
+    exact ⟨e, c, he, hc, fun q hq ecls txt hv => validProp_emb (hall q hq) hv⟩
+  · intro h
+    obtain ⟨e, c, he, hc, hall⟩ := stepModify_ok_valid h
+    exact ⟨e, c, he, hc, fun q hq ecls txt hv => validProp_emb (hall q hq) hv⟩
+  · intro e c q he hc hq hv
+    exact stepCreate_invalid he hc hq hv
+
+/-- non-vacuity: class TST_E has `[EmbeddedInstance("TST_P")] string ei`; an embedded instance of the subclass tst_q is
+    accepted, one of the unrelated class Other and one of a class that is not in the repository are refused -/
+def demoClsQ : Cls := { name := "tst_q".toList, super := some "TST_P".toList, isAssoc := false, props := demoCls.props }
+def demoClsO : Cls := { name := "Other".toList, super := none, isAssoc := false, props := demoCls.props }
+def demoClsE : Cls :=
+  { name := "TST_E".toList, super := none, isAssoc := false,
+    props := [{ name := "id".toList, ty := "string".toList, isArr := false, isKey := true, dflt := .null },
+              { name := "ei".toList, ty := "string".toList, isArr := false, isKey := false, dflt := .null,
+                embInst := some "TST_P".toList }] }
+def demoRepoE : Repo :=
+  { nss := [{ name := "root/a".toList, classes := [demoCls, demoClsQ, demoClsO, demoClsE], insts := [] }],
+    dflt := "root/a".toList }
+def demoInstE (ecls : String) : Inst :=
+  { cls := "TST_E".toList,
+    props := [{ name := "id".toList, ty := "string".toList, isArr := false, val := Val.one (KV.sc (Scalar.str "1".toList)) },
+              { name := "EI".toList, ty := "string".toList, isArr := false, val := .emb false ecls.toList "…".toList }] }
+
+example :
+    (match (stepCreate demoRepoE none (demoInstE "TST_Q")).2 with | .path _ => true | _ => false) = true ∧
+    (stepCreate demoRepoE none (demoInstE "Other")).2 = errParam ∧
+    (stepCreate demoRepoE none (demoInstE "Nowhere")).2 = errParam := by
   decide
 
 /-! ### case and order of names: the other operations; status codes of DeleteInstance -/
